@@ -63,6 +63,7 @@ var worldNo atomic.Int64
 // world is one process lifetime: store + alert service + TaskMaster (+ task).
 type world struct {
 	n        int64
+	lineage  int64
 	cfg      Cfg
 	store    *rt.BoltStore
 	snap     *rt.SnapStore
@@ -89,7 +90,7 @@ type txRec struct {
 // openWorld opens the store at path (created if missing) and the services on it.
 // lineage: topic names must be the same in the pre-crash and post-crash world.
 func openWorld(path string, c Cfg, lineage int64) (*world, error) {
-	w := &world{n: worldNo.Add(1), cfg: c, ctx: &tctx{}}
+	w := &world{n: worldNo.Add(1), cfg: c, ctx: &tctx{}, lineage: lineage}
 	d := rt.NewDiag()
 	st, err := rt.NewBoltStore(path, true, d)
 	if err != nil {
@@ -196,11 +197,11 @@ func (w *world) registerNamed() {
 
 // Parsed task definitions are reused across the worlds of one lineage (the definition
 // is configuration only; evaluating the TICKscript is by far the most expensive step).
-var taskCache sync.Map // script -> *kapacitor.Task
+var taskCache sync.Map // task id + script -> *kapacitor.Task
 
 func (w *world) startTask() {
 	var t *kapacitor.Task
-	if c, ok := taskCache.Load(w.script); ok {
+	if c, ok := taskCache.Load(w.taskID + "\n" + w.script); ok {
 		t = c.(*kapacitor.Task)
 	} else {
 		var err error
@@ -208,7 +209,7 @@ func (w *world) startTask() {
 		if err != nil {
 			rt.Fatalf("c08: NewTask: %v\n%s", err, w.script)
 		}
-		taskCache.Store(w.script, t)
+		taskCache.Store(w.taskID+"\n"+w.script, t)
 	}
 	views := w.snap.Views.Load()
 	if _, err := w.env.TM.StartTask(t); err != nil {
@@ -232,6 +233,9 @@ func (w *world) startTask() {
 }
 
 func (w *world) stopTask() {
+	if !w.env.TM.IsExecuting(w.taskID) {
+		rt.Fatalf("c08: task %s is not executing", w.taskID)
+	}
 	if err := w.env.TM.StopTask(w.taskID); err != nil {
 		rt.Fatalf("c08: StopTask: %v", err)
 	}
@@ -262,7 +266,7 @@ func (w *world) feed(k int, p Pt) {
 	}
 	w.fed++
 	if !w.env.Timing.WaitStops(w.timerIdx, w.fed, 30*time.Second) {
-		rt.Fatalf("c08: alert node did not finish point %d (stops=%d want %d)", k, w.env.Timing.Stops(w.timerIdx), w.fed)
+		rt.Fatalf("c08: alert node did not finish point %d (stops=%d want %d) in %s", k, w.env.Timing.Stops(w.timerIdx), w.fed, jobOf(w.lineage))
 	}
 	w.quiesce()
 	if errs := w.env.Diag.Errors(); len(errs) > 0 {
@@ -288,30 +292,42 @@ func (w *world) real(t string) string {
 	return w.namedT
 }
 
-// stateOf reports the topic through the service API: id -> level for every event the
-// topic knows (EventStates(OK)); a topic the service does not know is {}.
-func stateOf(as *alertservice.Service, real string) rt.M {
-	out := rt.M{}
-	if _, ok, _ := as.TopicState(real); !ok {
+// stateOf reports the topic through the service API: [id, level] for every event the
+// topic knows (EventStates(OK)), sorted by id; a topic the service does not know is [].
+func stateOf(as *alertservice.Service, real string) []any {
+	out := []any{}
+	ts, ok, _ := as.TopicState(real)
+	if !ok {
 		return out
 	}
 	es, err := as.EventStates(real, alert.OK)
 	if err != nil {
 		rt.Fatalf("c08: EventStates(%s): %v", real, err)
 	}
-	for id, s := range es {
-		out[id] = int(s.Level)
-	}
-	// the topic level must be the maximum (C09's invariant; cheap cross-check of the restored sorted list)
-	ts, _, _ := as.TopicState(real)
 	max := 0
-	for _, s := range es {
-		if int(s.Level) > max {
-			max = int(s.Level)
+	for _, id := range rt.SortedKeys(es) {
+		l := int(es[id].Level)
+		out = append(out, []any{id, l})
+		if l > max {
+			max = l
 		}
 	}
+	// the topic level must be the maximum (C09's invariant; cheap cross-check of the restored sorted list)
 	if int(ts.Level) != max {
-		out["#topiclevel"] = int(ts.Level)
+		out = append(out, []any{"#topiclevel", int(ts.Level)})
+	}
+	// EventStates(min) must be the filter of EventStates(OK) (restored sorted list is really sorted)
+	for m := 1; m <= 3; m++ {
+		f, _ := as.EventStates(real, alert.Level(m))
+		want := 0
+		for _, e := range es {
+			if int(e.Level) >= m {
+				want++
+			}
+		}
+		if len(f) != want {
+			out = append(out, []any{"#eventstates", m})
+		}
 	}
 	return out
 }
